@@ -6,6 +6,7 @@ import (
 	"bytes"
 	"crypto/ecdsa"
 	"crypto/ed25519"
+	"encoding/asn1"
 	"encoding/json"
 	"fmt"
 	"math/big"
@@ -170,6 +171,18 @@ func tamperings(pool *KeyPool, k *Key, good string, tamper string) (out []struct
 		add("both halves zero-extended", join(hdr, payload, append(append(append([]byte{0}, sig[:w]...), 0), sig[w:]...)), k.JWK)
 		add("both halves zero-extended by 2", join(hdr, payload, append(append(append([]byte{0, 0}, sig[:w]...), 0, 0), sig[w:]...)), k.JWK)
 		add("doubled", join(hdr, payload, append(append([]byte(nil), sig...), sig...)), k.JWK)
+	case "signature_der":
+		// the same (r, s) in ASN.1 DER (what crypto/ecdsa and most HSMs emit): not the fixed-width form JWS uses
+		type rs struct{ R, S *big.Int }
+
+		if k.KT == "ed" {
+			der, _ := asn1.Marshal(sig)
+			add("signature wrapped in a DER octet string", join(hdr, payload, der), k.JWK)
+		} else {
+			w := len(sig) / 2
+			der, _ := asn1.Marshal(rs{new(big.Int).SetBytes(sig[:w]), new(big.Int).SetBytes(sig[w:])})
+			add("DER SEQUENCE{r, s}", join(hdr, payload, der), k.JWK)
+		}
 	case "signature_empty":
 		add("empty signature segment", parts[0]+"."+parts[1]+".", k.JWK)
 	case "unsupported_kty":
@@ -556,11 +569,18 @@ func jwsReplay(args []string) {
 			mod.Crv = map[string]string{"P-256": "P-384", "P-384": "P-521", "P-521": "P-256", "secp256k1": "P-256"}[j.Crv]
 		case "x_not_base64":
 			mod.X = "+" + j.X[1:]
+		case "x_short_shadowed":
+			mod.X = b64(x[1:])
 		default:
 			fatalf("mod %s", c.Mod)
 		}
 
 		raw, _ := json.Marshal(mod)
+
+		if c.Mod == "x_short_shadowed" {
+			// ... followed by a member "X" with the full-width coordinate
+			raw = append(append(raw[:len(raw)-1:len(raw)-1], fmt.Sprintf(`,"X":%q`, j.X)...), '}')
+		}
 
 		var back jwsutil.JWK
 
@@ -595,6 +615,45 @@ func jwsReplay(args []string) {
 		if jc.Expected.Ok {
 			if uerr != nil || !sameKey || verr != nil {
 				fail("jwk-round-trip", fmt.Sprint(uerr, " / ", verr), "same key, verifies", map[string]interface{}{"same_key": sameKey}, string(raw))
+				return
+			}
+
+			// read into a variable that held a key of another kind before: it is this key now, and writes as this key
+			for _, prevKT := range []string{"k1", "p256", "ed"} {
+				if prevKT == c.Kt {
+					continue
+				}
+
+				var reused jwsutil.JWK
+
+				prev, _ := json.Marshal(pool.Get(prevKT, "c16-previous").JWK)
+				if e := reused.UnmarshalJSON(prev); e != nil {
+					fail("jwk-round-trip", "previous key: "+e.Error(), nil, nil, string(prev))
+					return
+				}
+
+				e1 := reused.UnmarshalJSON(raw)
+				out, e2 := reused.MarshalJSON()
+
+				var fresh jwsutil.JWK
+
+				_ = fresh.UnmarshalJSON(raw)
+				want, _ := fresh.MarshalJSON()
+
+				if e1 != nil || e2 != nil || reused.Kty != fresh.Kty || reused.Crv != fresh.Crv || digestJSON(json.RawMessage(out)) != digestJSON(json.RawMessage(want)) {
+					fail("jwk-round-trip", fmt.Sprintf("read into a variable that held a %s key before: %v %v", prevKT, e1, e2), string(want), string(out), string(raw))
+					return
+				}
+			}
+
+			// the compressed point of a secp256k1 key: 02 / 03 (parity of y) and x at full width
+			if pk, isEC := key.Pub.(*ecdsa.PublicKey); isEC && c.Kt == "k1" {
+				got, perr := back.PublicKeyBytes()
+				want := append([]byte{byte(2 + pk.Y.Bit(0))}, pk.X.FillBytes(make([]byte, 32))...)
+
+				if perr != nil || !bytes.Equal(got, want) {
+					fail("public-key-bytes", fmt.Sprint(perr), fmt.Sprintf("%x", want), fmt.Sprintf("%x", got), string(raw))
+				}
 			}
 
 			return
